@@ -26,7 +26,7 @@ LIMITS = {'NAND2_X1': (2, 1), 'AOI21_X1': (3, 1), 'MUX2_X1': (3, 1), 'HA_X1': (2
 
 def plan(tier, seed):
     q = tier == 'quick'
-    return [{'n': 160 if q else 3000} for _ in range(15)] + [{'corpus': True, 'big': not q}]
+    return [{'n': 700 if q else 15000} for _ in range(15)] + [{'corpus': True, 'big': not q}]
 
 
 def conclude(agg):
